@@ -134,3 +134,10 @@ PROPS["C15"] = {
          "timeout": {"quick": 900, "thorough": 1800}},
     ],
 }
+PROPS["C16"] = {
+    "level": "exploration",
+    "units": [
+        {"name": "c16-connectedness", "pkg": ROOT, "run": "TestVerifC16Conn", "instr": ["connectedness_manager.go", "internal/notify/notify.go"],
+         "timeout": {"quick": 600, "thorough": 3400}},
+    ],
+}
